@@ -351,6 +351,442 @@ def c01(prop, tier, seed):
         required={"repeated_observations": 1, "observations_on_spawned_threads": 1}, extra_cov=extra_cov)
 
 
+# ------------------------------------------------------------------------------------------------
+# C10: the same seeded job list in four separately built binaries, history logs joined
+
+C10_RULE = ("case = 4 direct StrainsVec operation programs (pushes of positive/subnormal/huge values and zero runs up to 3000, then "
+            "len/sum/iter/into_vec and retain+sort+transmute, sorted_non_zero_iter_mut rescaling, retain) plus one map (40% with "
+            "hour-long gaps / objects before t=0) x every reachable mode x {difficulty, strains, performance, gradual difficulty "
+            "next/nth/last walk, gradual performance schedule}; every result digest is logged by the four binaries rel (default "
+            "features), raw (raw_strains), sync, rawsync and the logs are joined key by key. non-trivial = map with >= 2 objects")
+
+
+def join_hists(agg, prop, jobs, labels, seed, sig_prefix):
+    """Join history logs {label: file per job}; label[0] is the reference. Returns (joined, mismatches, missing)."""
+    joined = mismatches = missing = 0
+    for (s, n) in jobs:
+        tables = []
+        for lb in labels:
+            fn = os.path.join(D.RUN, f"{prop}-hist-{lb}-{s}.tsv")
+            t = {}
+            if os.path.exists(fn):
+                for line in open(fn):
+                    k, _, v = line.rstrip("\n").partition("\t")
+                    t.setdefault(k, set()).add(v)
+            tables.append(t)
+        base = tables[0]
+        for k, vs in base.items():
+            for li in range(1, len(labels)):
+                o = tables[li].get(k)
+                if o is None:
+                    missing += 1
+                    continue
+                joined += 1
+                if o != vs:
+                    mismatches += 1
+                    parts = k.split("/")
+                    case = int(parts[0])
+                    what = "/".join(parts[1:])
+                    sig = f"{sig_prefix}/{labels[li]}-vs-{labels[0]}/{what.split('/')[-1] if not what.startswith('strainsvec') else 'strainsvec'}"
+                    agg.viol.append({"sig": sig, "case": case, "seed": seed, "variant": labels[li],
+                                     "detail": f"key {k}: build {labels[0]} observed digests {sorted(vs)}, build {labels[li]} observed {sorted(o)}",
+                                     "input": None})
+                    agg.viol_sig_counts[sig] = agg.viol_sig_counts.get(sig, 0) + 1
+        for li in range(1, len(labels)):
+            for k in tables[li]:
+                if k not in base:
+                    missing += 1
+    return joined, mismatches, missing
+
+
+def c10(prop, tier, seed):
+    import concurrent.futures as cf
+    t0 = time.time()
+    agg = D.Agg()
+    labels = ["rel", "raw", "sync", "rawsync"]
+    bins = {lb: D.build(lb) for lb in labels}
+    total = 3000 if tier == "quick" else 60000
+    chunk = max(1, (total + 15) // 16)
+    jobs = []
+    s = 0
+    while s < total:
+        n = min(chunk, total - s)
+        jobs.append((s, n))
+        s += n
+    side = {lb: (agg if lb == "rel" else D.Agg()) for lb in labels}
+
+    def run_one(lb, s, n):
+        extra = {"--hist": os.path.join(D.RUN, f"{prop}-hist-{lb}-{s}.tsv")}
+        D.run_range(side[lb], bins[lb], prop, seed, s, n, tier, lb, extra, 1800, None, 30, 6, lb)
+
+    with cf.ThreadPoolExecutor(max_workers=D.NCPU) as ex:
+        futs = [ex.submit(run_one, lb, s, n) for lb in labels for (s, n) in jobs]
+        for f in futs:
+            f.result()
+    for lb in labels[1:]:
+        a = side[lb]
+        agg.viol.extend(a.viol)
+        agg.herr.extend(a.herr)
+        agg.inconclusive.extend(a.inconclusive)
+        agg.crashes += a.crashes
+        for k, v in a.viol_sig_counts.items():
+            agg.viol_sig_counts[k] = agg.viol_sig_counts.get(k, 0) + v
+    joined, mismatches, missing = join_hists(agg, prop, jobs, labels, seed, "C10/cross-build")
+    if joined == 0:
+        agg.inconclusive.append("cross-build join compared nothing")
+    if missing:
+        agg.inconclusive.append(f"{missing} keys missing in one of the builds (a worker stopped early)")
+    extra_cov = {"builds": labels, "cross_build_keys_joined": joined, "cross_build_mismatches": mismatches,
+                 "cross_build_keys_missing": missing}
+    return D.conclude(prop, tier, seed, agg, t0, C10_RULE, COMMON_ASSUME, required={
+        "class:>=1e3-sections": 1, "class:objects-before-time-zero": 1, "strainsvec_programs": 1}, extra_cov=extra_cov)
+
+
+def replay_c10(prop, rec):
+    """Re-run the recorded case in all four builds and join."""
+    agg = D.Agg()
+    labels = ["rel", "raw", "sync", "rawsync"]
+    case = rec["case"]
+    for lb in labels:
+        binp = D.build(lb)
+        extra = {"--hist": os.path.join(D.RUN, f"{prop}-hist-{lb}-{case}.tsv")}
+        D.run_range(agg, binp, prop, rec["seed"], case, 1, rec.get("tier", "quick"), "replay" + lb, extra, 1800, None, 30, 6, lb)
+    joined, mismatches, missing = join_hists(agg, prop, [(case, 1)], labels, rec["seed"], "C10/cross-build")
+    sigs = sorted({v["sig"] for v in agg.viol})
+    for v in agg.viol[:5]:
+        print(f"  observed: {v['sig']}\n    {(v.get('detail') or '')[:800]}")
+    if sigs:
+        print(f"VIOLATION property={prop} replay=replayed")
+        print(f"  recorded signature {rec.get('signature')}; observed {sigs}")
+        return 1
+    print(f"[{prop}] replay: case {case} joined {joined} keys across 4 builds without mismatch")
+    return 0
+
+
+# ------------------------------------------------------------------------------------------------
+# C11: Miri (both aliasing models) + ASan + valgrind memcheck + native model comparison
+
+C11_RULE = ("case = (a) 2-8 StrainsVec operation programs respecting the type's unsafe contracts (pushes of positive, +0, -0, negative, "
+            "subnormal, +-NaN, +-inf; clone; retain/sort/transmute; sorted_non_zero_iter_mut with positive rescaling; into_vec/iter/sum) "
+            "compared step by step with a Vec<f64> model; (b) gradual difficulty calculators of a generated map: dropped untouched, "
+            "boxed/partially consumed/unboxed, pushed into a reallocating Vec and swapped, mem::swap + interleaved, Option::take, "
+            "(sync: handed to another thread); every observed value compared with the plain sequence; (c) decoder on 20 slider path "
+            "lines incl. malformed ones that return early; (d) clock_rate extremes. Executed natively (release + debug with has_zero "
+            "and debug assertions live), under Miri with Stacked Borrows and with Tree Borrows (small workload), under "
+            "AddressSanitizer (plus the C02/C05/C06 workloads), and under valgrind memcheck (sample). Verdict rule: violation = model "
+            "mismatch, UB reported under Tree Borrows, non-aliasing UB under either model, any ASan/memcheck error; reports that appear "
+            "only under Stacked Borrows and concern borrow tags are advisory. non-trivial = case with a map of >= 2 objects")
+
+MIRI_BASE_FLAGS = "-Zmiri-disable-isolation -Zmiri-deterministic-floats -Zmiri-ignore-leaks"
+
+
+def miri_classify(stderr_text):
+    """Return (kind, is_aliasing, frame, message) for the first UB report or None."""
+    import re
+    m = re.search(r"error: Undefined Behavior: (.*)", stderr_text)
+    if not m:
+        m2 = re.search(r"error: (unsupported operation|the evaluated program [^\n]*|memory leaked)[^\n]*", stderr_text)
+        if m2:
+            return ("miri-error", False, "unknown", m2.group(0)[:300])
+        return None
+    msg = m.group(1)
+    aliasing = any(w in msg for w in ("retag", "borrow stack", "is forbidden", "Stacked Borrows", "Tree Borrows", "protected", "tag"))
+    if "data race" in msg.lower():
+        kind, aliasing = "data-race", False
+    elif "dangling" in msg or "freed" in msg or "dereferenc" in msg:
+        kind = "dangling"
+        aliasing = False
+    elif "out-of-bounds" in msg or "out of bounds" in msg:
+        kind, aliasing = "out-of-bounds", False
+    elif "uninitialized" in msg:
+        kind, aliasing = "uninit", False
+    elif "invalid value" in msg or "constructing invalid" in msg:
+        kind, aliasing = "invalid-value", False
+    elif aliasing:
+        kind = "aliasing"
+    else:
+        kind = "ub"
+    fr = re.search(r"\d+: (rosu_pp::[^\n]*?)\n\s+at /repo/(src/[^:\n]+)", stderr_text)
+    frame = fr.group(1).strip() if fr else "unknown"
+    frame = re.sub(r"::\{closure[^}]*\}", "", frame)
+    return (kind, aliasing, frame, msg[:400])
+
+
+def run_miri_shard(prop, seed, start, count, model, tag, extra_params, timeout=1500, manyseeds=None):
+    env = dict(D.ENV_BASE)
+    flags = MIRI_BASE_FLAGS + (" -Zmiri-tree-borrows" if model == "tree" else "")
+    if manyseeds:
+        flags += f" -Zmiri-many-seeds=0..{manyseeds}"
+    env["MIRIFLAGS"] = flags
+    env["CARGO_TARGET_DIR"] = os.path.join(D.TARGET, "miri")
+    logp = os.path.join(D.RUN, f"{prop}-miri-{model}-{tag}-{start}.log")
+    cmd = ["cargo", "+nightly", "miri", "run", "-q", "-p", "rpv", "--offline", "--", prop, "--seed", str(seed), "--start", str(start),
+           "--count", str(count), "--log", logp, "--budget", "0", "--mem", "0"]
+    for k, v in extra_params.items():
+        cmd += ["--param", f"{k}={v}"]
+    import subprocess
+    t0 = time.time()
+    try:
+        r = subprocess.run(cmd, cwd=D.HARNESS, env=env, capture_output=True, text=True, timeout=timeout)
+        rc, err = r.returncode, r.stderr
+        timed_out = False
+    except subprocess.TimeoutExpired as e:
+        rc, err, timed_out = -9, (e.stderr or b"").decode(errors="replace") if isinstance(e.stderr, bytes) else (e.stderr or ""), True
+    open(logp + ".stderr", "w").write(err)
+    return {"rc": rc, "stderr": err, "log": logp, "timed_out": timed_out, "wall": time.time() - t0}
+
+
+def miri_prebuild():
+    """Compile the harness for Miri once so that the parallel shards only run."""
+    import subprocess
+    env = dict(D.ENV_BASE)
+    env["MIRIFLAGS"] = MIRI_BASE_FLAGS
+    env["CARGO_TARGET_DIR"] = os.path.join(D.TARGET, "miri")
+    t0 = time.time()
+    r = subprocess.run(["cargo", "+nightly", "miri", "run", "-q", "-p", "rpv", "--offline", "--", "C13", "--count-cases"],
+                       cwd=D.HARNESS, env=env, capture_output=True, text=True)
+    if r.returncode != 0 or "COUNT" not in r.stdout:
+        raise D.Inconclusive(f"miri build/run of the harness failed: {r.stderr[-1500:]}")
+    D.log(f"[build] variant=miri {time.time() - t0:.1f}s")
+
+
+def miri_campaign(agg, prop, seed, n_cases, per_shard, models, extra_params, stats, sig_prefix, manyseeds=None):
+    import concurrent.futures as cf
+    jobs = [(m, s) for m in models for s in range(0, n_cases, per_shard)]
+    results = {}
+
+    def one(m, s):
+        return run_miri_shard(prop, seed, s, min(per_shard, n_cases - s), m, "c", extra_params, manyseeds=manyseeds)
+
+    with cf.ThreadPoolExecutor(max_workers=D.NCPU) as ex:
+        futs = {ex.submit(one, m, s): (m, s) for (m, s) in jobs}
+        for f in cf.as_completed(futs):
+            results[futs[f]] = f.result()
+    reports = {}
+    for (m, s), r in sorted(results.items()):
+        pl = D.parse_log(r["log"])
+        if m == models[0]:
+            agg.add_stats(pl["stats"])
+        agg.viol.extend(dict(v, variant=f"miri-{m}") for v in pl["viol"])
+        for v in pl["viol"]:
+            agg.viol_sig_counts[v["sig"]] = agg.viol_sig_counts.get(v["sig"], 0) + 1
+        stats[f"miri_{m}_shards"] = stats.get(f"miri_{m}_shards", 0) + 1
+        if pl["stats"]:
+            stats[f"miri_{m}_cases_completed"] = stats.get(f"miri_{m}_cases_completed", 0) + min(per_shard, n_cases - s)
+        if r["timed_out"]:
+            agg.inconclusive.append(f"miri shard {m}@{s} hit the wall-clock limit")
+            continue
+        cl = miri_classify(r["stderr"])
+        if cl:
+            reports[(m, s)] = cl
+        elif r["rc"] != 0 or not pl["done"]:
+            agg.inconclusive.append(f"miri shard {m}@{s} ended abnormally rc={r['rc']}: {r['stderr'][-400:]}")
+    # verdict rule
+    advisory = []
+    for (m, s), (kind, aliasing, frame, msg) in sorted(reports.items()):
+        stats["miri_reports"] = stats.get("miri_reports", 0) + 1
+        if kind == "miri-error":
+            agg.inconclusive.append(f"miri shard {m}@{s}: {msg}")
+            continue
+        if aliasing and m == "stacked":
+            # counts as a violation only if Tree Borrows reports UB for the same shard as well
+            if (("tree", s) in reports):
+                continue  # the tree report carries the violation
+            advisory.append(f"stacked-borrows-only: {frame}: {msg[:160]}")
+            continue
+        sig = f"{sig_prefix}/miri:{kind}@{frame}"
+        pl = D.parse_log(results[(m, s)]["log"])
+        case = pl["open"] if pl["open"] is not None else s
+        agg.viol.append({"sig": sig, "case": case, "seed": seed, "variant": f"miri-{m}",
+                         "detail": f"Miri ({'Tree' if m == 'tree' else 'Stacked'} Borrows) reported undefined behaviour in case {case}: {msg}\n"
+                                   f"innermost library frame: {frame}\n" + results[(m, s)]["stderr"][:1800],
+                         "input": None})
+        agg.viol_sig_counts[sig] = agg.viol_sig_counts.get(sig, 0) + 1
+    stats["miri_advisory_stacked_only"] = advisory[:10]
+
+
+def valgrind_sample(agg, prop, seed, binp, start, count, params, stats, sig_prefix):
+    import subprocess, re
+    logp = os.path.join(D.RUN, f"{prop}-valgrind-{start}.log")
+    vlog = os.path.join(D.RUN, f"{prop}-valgrind-{start}.vg")
+    cmd = ["valgrind", "--tool=memcheck", "--error-exitcode=77", "--leak-check=no", f"--log-file={vlog}", "--num-callers=25",
+           binp, prop, "--seed", str(seed), "--start", str(start), "--count", str(count), "--log", logp, "--budget", "0", "--mem", "0"]
+    for k, v in params.items():
+        cmd += ["--param", f"{k}={v}"]
+    try:
+        r = subprocess.run(cmd, cwd=D.VERIF, env=D.ENV_BASE, capture_output=True, text=True, timeout=1500)
+    except subprocess.TimeoutExpired:
+        agg.inconclusive.append("valgrind sample hit the wall-clock limit")
+        return
+    pl = D.parse_log(logp)
+    txt = open(vlog, errors="replace").read() if os.path.exists(vlog) else ""
+    m = re.search(r"ERROR SUMMARY: (\d+) errors", txt)
+    n_err = int(m.group(1)) if m else -1
+    stats["valgrind_cases"] = stats.get("valgrind_cases", 0) + (count if pl["done"] else 0)
+    stats["valgrind_errors"] = stats.get("valgrind_errors", 0) + max(n_err, 0)
+    if n_err > 0:
+        fr = re.search(r"(?:at|by) 0x[0-9A-F]+: (rosu_pp::[^ (]+)", txt)
+        frame = fr.group(1) if fr else "unknown"
+        kind = re.search(r"== (Invalid (?:read|write)[^\n]*|Conditional jump[^\n]*|Use of uninit[^\n]*|Invalid free[^\n]*)", txt)
+        sig = f"{sig_prefix}/memcheck@{frame}"
+        agg.viol.append({"sig": sig, "case": start, "seed": seed, "variant": "valgrind",
+                         "detail": f"valgrind memcheck: {n_err} error(s); first: {kind.group(1) if kind else '?'}\n{txt[:1500]}",
+                         "input": None})
+        agg.viol_sig_counts[sig] = agg.viol_sig_counts.get(sig, 0) + 1
+    elif n_err < 0 or not pl["done"]:
+        agg.inconclusive.append(f"valgrind sample ended abnormally rc={r.returncode}")
+
+
+ASAN_ENV = {"ASAN_OPTIONS": "detect_leaks=0:halt_on_error=1:abort_on_error=1:allocator_may_return_null=1"}
+
+
+def c11(prop, tier, seed):
+    t0 = time.time()
+    agg = D.Agg()
+    stats = {}
+    quick = tier == "quick"
+    # native: release and debug (has_zero flag + debug assertions live)
+    for variant, n in (("rel", 4000 if quick else 100000), ("dbg", 1500 if quick else 30000)):
+        binp = D.build(variant)
+        D.run_sharded(agg, binp, prop, seed, n, tier, variant=variant, tag="n")
+    # ASan: C11 workload plus the C02 / C05 / C06 workloads with maps far larger than Miri can take
+    asan = D.build("asan")
+    side = D.Agg()
+    for p2, n in ((prop, 1500 if quick else 30000), ("C02", 600 if quick else 12000), ("C05", 1000 if quick else 20000),
+                  ("C06", 4000 if quick else 100000)):
+        a = agg if p2 == prop else side
+        D.run_sharded(a, asan, p2, seed, n, tier, variant="asan", tag="a", env=ASAN_ENV, mem=0, timeout=3000)
+        stats[f"asan_cases_{p2}"] = n
+    # only memory errors of the foreign workloads count here (their own oracles are judged by their own checks)
+    for v in side.viol:
+        if "asan:" in v["sig"] or "signal" in v["sig"] or "stack-overflow" in v["sig"]:
+            v = dict(v)
+            v["sig"] = v["sig"].replace(v["sig"].split("/")[0], "C11", 1)
+            agg.viol.append(v)
+            agg.viol_sig_counts[v["sig"]] = agg.viol_sig_counts.get(v["sig"], 0) + 1
+    agg.inconclusive.extend(side.inconclusive)
+    stats["asan_foreign_workload_api_calls"] = side.counters.get("api_calls", 0)
+    stats["asan_worker_crashes"] = agg.crashes + side.crashes
+    # Miri, both aliasing models
+    miri_prebuild()
+    n_miri = 48 if quick else 800
+    miri_campaign(agg, prop, seed, n_miri, 3 if quick else 5, ["stacked", "tree"], {"small": 1}, stats, "C11")
+    # valgrind memcheck sample on the plain release binary
+    relb = D.build("rel")
+    import concurrent.futures as cf
+    n_vg = 4 if quick else 16
+    with cf.ThreadPoolExecutor(max_workers=D.NCPU) as ex:
+        futs = [ex.submit(valgrind_sample, agg, prop, seed, relb, 5000 + 10 * k, 10, {}, stats, "C11") for k in range(n_vg)]
+        for f in futs:
+            f.result()
+    required = {"strainsvec_programs": 1, "lifetimes:osu": 1, "lifetimes:taiko": 1, "lifetimes:catch": 1, "lifetimes:mania": 1,
+                "decoder_path_files": 1}
+    for k in ("miri_stacked_cases_completed", "miri_tree_cases_completed", "valgrind_cases"):
+        if stats.get(k, 0) < 1:
+            agg.inconclusive.append(f"{k} = {stats.get(k, 0)}")
+    return D.conclude(prop, tier, seed, agg, t0, C11_RULE, COMMON_ASSUME + [
+        "Miri cannot see layout assumptions that happen to hold (transmute between Vec<StrainsEntry> and Vec<f64>); ASan misses "
+        "intra-object and non-adjacent overflows; -Zmiri-deterministic-floats is used so that value comparisons are meaningful"],
+        required=required, extra_cov={"sanitizers": stats, "variants": ["rel", "dbg", "asan", "miri-stacked", "miri-tree", "valgrind"]})
+
+
+# ------------------------------------------------------------------------------------------------
+# C20: thread pool vs sequential, ThreadSanitizer, hand-over chains, Miri data-race detector
+
+C20_RULE = ("case = pool of 3-6 maps and 30-80 jobs {difficulty, strains, performance, conversion, gradual walk, bpm+attributes} "
+            "concentrated on <= 3 maps; run sequentially, then on 2/4/8/16 threads (3 schedules per case, thorough 6) with random "
+            "assignment, rendezvous start and jitter, maps shared by reference and (every third schedule) owned per thread; per-job "
+            "dumps must equal the sequential ones, shared maps unchanged; overlap (jobs on the same map on different threads with "
+            "intersecting [start,end]) is measured. With feature sync: a gradual calculator travels through a chain of threads over "
+            "channels (all 2-thread split points for sequences <= 12, random chains of 2-8 threads otherwise) and must yield its "
+            "single-thread sequence. The same workload runs in the default build, the sync build, under ThreadSanitizer (sync, "
+            "-Zbuild-std) and, tiny, under Miri's data-race detector with several scheduler seeds. non-trivial = every case")
+
+TSAN_ENV = {"TSAN_OPTIONS": "halt_on_error=1 exitcode=66 second_deadlock_stack=1"}
+
+
+def c20(prop, tier, seed):
+    t0 = time.time()
+    agg = D.Agg()
+    stats = {}
+    quick = tier == "quick"
+    for variant, n in (("rel", 600 if quick else 12000), ("sync", 600 if quick else 12000)):
+        binp = D.build(variant)
+        D.run_sharded(agg, binp, prop, seed, n, tier, variant=variant, tag="n", workers=4, extra={"max_threads": 16})
+    tsan = D.build("tsan")
+    n_tsan = 160 if quick else 3000
+    before = agg.crashes
+    D.run_sharded(agg, tsan, prop, seed, n_tsan, tier, variant="tsan", tag="t", env=TSAN_ENV, mem=0, workers=4, timeout=3000)
+    stats["tsan_cases"] = n_tsan
+    stats["tsan_worker_crashes"] = agg.crashes - before
+    # Miri (sync feature) with several scheduler seeds: data-race detector + aliasing models across threads
+    import subprocess
+    env = dict(D.ENV_BASE)
+    env["CARGO_TARGET_DIR"] = os.path.join(D.TARGET, "miri-sync")
+    env["MIRIFLAGS"] = MIRI_BASE_FLAGS
+    r = subprocess.run(["cargo", "+nightly", "miri", "run", "-q", "-p", "rpv", "--features", "sync", "--offline", "--", "C13", "--count-cases"],
+                       cwd=D.HARNESS, env=env, capture_output=True, text=True)
+    if r.returncode != 0:
+        raise D.Inconclusive(f"miri build (sync) failed: {r.stderr[-1500:]}")
+    import concurrent.futures as cf
+    n_miri = 16 if quick else 160
+    seeds = 4 if quick else 8
+
+    def one(s):
+        e = dict(env)
+        e["MIRIFLAGS"] = MIRI_BASE_FLAGS + f" -Zmiri-many-seeds=0..{seeds}"
+        logp = os.path.join(D.RUN, f"{prop}-miri-sync-{s}.log")
+        cmd = ["cargo", "+nightly", "miri", "run", "-q", "-p", "rpv", "--features", "sync", "--offline", "--", prop, "--seed", str(seed),
+               "--start", str(s), "--count", "1", "--log", logp, "--budget", "0", "--mem", "0", "--param", "small=1"]
+        try:
+            rr = subprocess.run(cmd, cwd=D.HARNESS, env=e, capture_output=True, text=True, timeout=2400)
+            return s, rr.returncode, rr.stderr, logp, False
+        except subprocess.TimeoutExpired:
+            return s, -9, "", logp, True
+
+    with cf.ThreadPoolExecutor(max_workers=D.NCPU) as ex:
+        res = list(ex.map(one, range(n_miri)))
+    done = 0
+    for s, rc, err, logp, to in res:
+        open(logp + ".stderr", "w").write(err)
+        if to:
+            agg.inconclusive.append(f"miri shard {s} hit the wall-clock limit")
+            continue
+        cl = miri_classify(err)
+        pl = D.parse_log(logp)
+        for v in pl["viol"]:
+            agg.viol.append(dict(v, variant="miri-sync"))
+            agg.viol_sig_counts[v["sig"]] = agg.viol_sig_counts.get(v["sig"], 0) + 1
+        if cl:
+            kind, aliasing, frame, msg = cl
+            if kind == "miri-error":
+                agg.inconclusive.append(f"miri shard {s}: {msg}")
+                continue
+            sig = f"C20/miri:{kind}@{frame}"
+            agg.viol.append({"sig": sig, "case": s, "seed": seed, "variant": "miri-sync",
+                             "detail": f"Miri reported undefined behaviour in the threaded workload (case {s}, one of {seeds} scheduler seeds): {msg}\n{err[:1800]}",
+                             "input": None})
+            agg.viol_sig_counts[sig] = agg.viol_sig_counts.get(sig, 0) + 1
+        elif rc != 0:
+            agg.inconclusive.append(f"miri shard {s} ended abnormally rc={rc}: {err[-400:]}")
+        else:
+            done += 1
+    stats["miri_sync_cases_completed"] = done
+    stats["miri_scheduler_seeds_per_case"] = seeds
+    if done == 0:
+        agg.inconclusive.append("no Miri case completed")
+    if agg.counters.get("overlapping_job_pairs_same_map", 0) < 100:
+        agg.inconclusive.append("too little measured overlap between threads working on the same map")
+    return D.conclude(prop, tier, seed, agg, t0, C20_RULE, COMMON_ASSUME + [
+        "all OS schedules is sampled, not enumerated; the library has no internal synchronisation points where delays could be injected, "
+        "jitter is applied between jobs only"],
+        required={"handover_chains": 1, "schedules:16-threads": 1, "schedules:shared-maps": 1, "schedules:owned-maps": 1},
+        extra_cov={"sanitizers": stats, "variants": ["rel", "sync", "tsan", "miri-sync"]})
+
+
 REGISTRY = {p: standard for p in STANDARD}
 REGISTRY["C01"] = c01
-REPLAYERS = {}
+REGISTRY["C20"] = c20
+REGISTRY["C11"] = c11
+REGISTRY["C10"] = c10
+REPLAYERS = {"C10": replay_c10}
